@@ -312,6 +312,10 @@ Loop:
 				return zerr.UnexpectedParamWildcard()
 			}
 		default:
+			// a required parameter that was not passed
+			if idx >= len(values) {
+				return zerr.LeastParamsError(idx + 1)
+			}
 			if err := validateOneParam(values[idx], t); err != nil {
 				return err
 			}
